@@ -260,12 +260,64 @@ EXCLUDED_POINTS = [
 ]
 
 
+def check_name_shapes(ctx, which=("same-short-name", "keyword-variable")):
+    """two legal but unusual shapes of resource NAMES (not of patterns): both are open findings (known_findings.json)"""
+    import subprocess, sys as _sys
+    for shape in which:
+        f = apigen.File("acme/lib/v1/lib.proto", "acme.lib.v1")
+        svc = f.service("Library")
+        if shape == "same-short-name":
+            specs = [("Thing", "foo.example.com/Thing", "foos/{foo}/things/{thing}"), ("OtherThing", "bar.example.com/Thing", "bars/{bar}/things/{thing}")]
+        else:
+            specs = [("Klass", "lib.example.com/Klass", "classes/{class}/imports/{import}")]
+        for mname, rtype, pat in specs:
+            m = f.msg(mname); m.field("name", "string"); m.resource(rtype, pat)
+            rq = f.msg(f"Get{mname}Request"); rq.field("name", "string", ref=rtype)
+            svc.method(f"Get{mname}", rq, m)
+        payload = {"name_shape": shape}
+        ctx.count("shape", "names:" + shape)
+        ctx.case({"name_shape": shape}, distinct_key=["name-shape", shape])
+        res, err = genrun.try_generate(apigen.request([f], "transport=grpc,autogen-snippets=false"))
+        if err:
+            ctx.fail(f"name-shape:{shape}:generation", f"generator raised {err[0]}: {err[1]}", payload)
+            continue
+        client = next(fl for fl in res.file if fl.name.endswith("services/library/client.py"))
+        try:
+            compile(client.content, client.name, "exec")
+        except SyntaxError as e:
+            line = client.content.splitlines()[(e.lineno or 1) - 1].strip()
+            key = "helper-syntax-error:keyword-variable" if (shape == "keyword-variable" and re.match(r"def \w+_path\(", line)) else f"name-shape:{shape}:syntax-error"
+            ctx.fail(key, f"pattern {specs[0][2]!r}: emitted client does not parse: {line[:100]}", payload)
+            continue
+        root = genrun.materialise(res)
+        try:
+            probe = ("import json\nfrom acme.lib_v1.services.library import LibraryClient as C\nout = {}\n"
+                     "for pat, vals in %r:\n"
+                     "    built = pat.format(**vals)\n"
+                     "    out[pat] = [sorted(n for n in dir(C) if n.endswith('_path') and 'common' not in n), [getattr(C, n)(built) for n in dir(C) if n.startswith('parse_') and 'common' not in n]]\n"
+                     "print(json.dumps(out))\n") % ([(pat, {v: "x" + v for v in re.findall(r"{(\w+)}", pat)}) for _, _, pat in specs],)
+            p_ = subprocess.run([_sys.executable, "-c", probe], cwd=root, capture_output=True, text=True, env={"PYTHONPATH": root, "PATH": "/usr/bin:/bin"}, timeout=120)
+        finally:
+            genrun.cleanup(root)
+        if p_.returncode:
+            ctx.fail(f"name-shape:{shape}:import", f"emitted client failed: {p_.stderr[-300:]}", payload)
+            continue
+        out = json.loads(p_.stdout.strip().splitlines()[-1])
+        for mname, rtype, pat in specs:
+            helpers, parses = out[pat]
+            vals = {v: "x" + v for v in re.findall(r"{(\w+)}", pat)}
+            if vals not in parses:       # no helper of the client parses a path built from THIS pattern
+                key = "helper-name-collision:same-short-name" if shape == "same-short-name" else f"name-shape:{shape}:roundtrip"
+                ctx.fail(key, f"resource {rtype} ({pat}): no parse_*_path of the client recovers {vals} (helpers: {helpers})", payload)
+
+
 def run(ctx):
     ctx.rule = ("structured patterns per the quantifier (1..6 variables, collection ids, separators - _ ~ ., "
                 "trailing **, singleton suffix, wildcard) x values over non-delimiter characters; a case is "
                 "distinct by (pattern, values); non-trivial = at least one variable and a successful build")
     ctx.assume("segment values are generated non-empty and newline-free except in the excluded-point stream")
     ctx.assume("resource patterns have distinct variable names (re.compile rejects duplicates)")
+    check_name_shapes(ctx)
     r = ctx.rng("patterns")
     napis = ctx.n(3, 40)
     per_api = 16
@@ -345,6 +397,11 @@ def search(ctx):
 
 
 def replay(ctx, payload):
+    if "name_shape" in payload:
+        check_name_shapes(ctx, (payload["name_shape"],))
+        for f in ctx.failures:
+            print("  failure:", f["key"], "-", f["what"])
+        return not ctx.failures
     segs, vals = payload["segs"], payload["values"]
     c = {"name": "Alpha", "segs": segs, "values": vals, "nonmatching": [payload["path"]] if "path" in payload and payload.get("observed") is None and False else [], "kind": payload.get("kind", "message")}
     ctx.driver = __import__("leanio").Driver()
